@@ -1193,4 +1193,197 @@ theorem readResponse_wire (blk : Nat) (hb : 0 < blk) (hb2 : blk < 4294967296) (p
   rfl
 
 
+
+
+/-! ### what `Http::request` and the server put on the wire, in the shape the reader lemmas need -/
+
+def sHostName : Bytes := [72, 111, 115, 116]
+
+theorem mem_dicSet {d : Dic} {k v : Bytes} {x : Bytes × Bytes} (h : x ∈ dicSet d k v) : x = (k, v) ∨ x ∈ d := by
+  obtain ⟨l1, l2, he, h1, h2⟩ := dicSet_split d k v
+  rw [he] at h
+  rcases List.mem_append.mp h with h | h
+  · exact Or.inr (h1 x h)
+  · rcases List.mem_cons.mp h with h | h
+    · exact Or.inl h
+    · exact Or.inr (h2 x h)
+
+theorem wf_digits_value (n : Nat) : WFValue (utoa n) := by
+  refine ⟨utoa_ne_nil n, fun c hc => (digit_not_space (utoa_digits n c hc)).2, ?_, ?_⟩
+  · intro c hc
+    exact (digit_not_space (utoa_digits n c (List.mem_of_mem_head? hc))).1
+  · intro c hc
+    exact (digit_not_space (utoa_digits n c (List.mem_of_getLast? hc))).1
+
+theorem wf_name_cl : WFName sContentLength := by
+  refine ⟨by decide, ?_⟩
+  decide
+
+theorem wf_name_host : WFName sHostName := by
+  refine ⟨by decide, ?_⟩
+  decide
+
+theorem cap_cl : capitalized sContentLength = sContentLength := by decide
+theorem cap_host_ne : capitalized sHostName ≠ sContentLength ∧ capitalized sHostName ≠ sTransferEncoding := by decide
+theorem cap_cl_ne_te : capitalized sContentLength ≠ sTransferEncoding := by decide
+
+/-- user headers that do not name the two framing headers -/
+def NoFraming (hs : List (Bytes × Bytes)) : Prop :=
+  ∀ nv ∈ hs, capitalized nv.1 ≠ sContentLength ∧ capitalized nv.1 ≠ sTransferEncoding
+
+theorem header_norm_absent (K : Bytes) (hK : capitalized K = K) (hs : List (Bytes × Bytes))
+    (h : ∀ x ∈ hs, x.2 ≠ [] ∧ capitalized x.1 ≠ K) : hasHeader (norm hs) K = false ∧ header (norm hs) K = [] := by
+  have := foldl_setHeader_preserve K hs [] h
+  unfold norm hasHeader header
+  rw [hK, this]
+  simp [dicGet]
+
+theorem header_norm_found (K : Bytes) (hK : capitalized K = K) (l1 l2 : List (Bytes × Bytes)) (n v : Bytes)
+    (hv : v ≠ []) (hn : capitalized n = K) (h2 : ∀ x ∈ l2, x.2 ≠ [] ∧ capitalized x.1 ≠ K) :
+    hasHeader (norm (l1 ++ (n, v) :: l2)) K = true ∧ header (norm (l1 ++ (n, v) :: l2)) K = v := by
+  have := foldl_setHeader_found K l1 l2 n v [] hv hn h2
+  unfold norm hasHeader header
+  rw [hK, this]
+  simp
+
+theorem writeBody_nil (c : Bool) (blk : Nat) : writeBody c blk [] = [] := rfl
+
+/-- the framing of the message `Http::request` builds (`Content-Length` exactly when the body is not empty) -/
+theorem client_framed (blk : Nat) (hostport : Bytes) (hs : Dic) (body : Bytes) (hb : 0 < blk)
+    (hwf : WFHeaders hs) (hres : NoFraming hs) (hhp : hostport ≠ []) :
+    let h' := if body.length ≠ 0 then setHeader hs sContentLength (utoa body.length) else hs
+    Framed blk (norm ((sHostName, hostport) :: h')) (writeBody (isChunked h') blk body) body ∧
+      (∀ x ∈ h', x = (sContentLength, utoa body.length) ∨ x ∈ hs) := by
+  intro h'
+  by_cases hb0 : body.length = 0
+  · have hbody : body = [] := List.eq_nil_of_length_eq_zero hb0
+    have hh : h' = hs := by simp [h', hb0]
+    rw [hh, hbody, writeBody_nil]
+    have hall : ∀ K, (∀ nv ∈ hs, capitalized nv.1 ≠ K) → capitalized sHostName ≠ K →
+        ∀ x ∈ (sHostName, hostport) :: hs, x.2 ≠ [] ∧ capitalized x.1 ≠ K := by
+      intro K h1 h2 x hx
+      rcases List.mem_cons.mp hx with h | h
+      · subst h; exact ⟨hhp, h2⟩
+      · exact ⟨(hwf x h).2.1.1, h1 x h⟩
+    have a1 := header_norm_absent sContentLength cap_cl _ (hall _ (fun nv h => (hres nv h).1) cap_host_ne.1)
+    have a2 := header_norm_absent sTransferEncoding (by decide) _ (hall _ (fun nv h => (hres nv h).2) cap_host_ne.2)
+    refine ⟨Framed.none a1.1 ?_, fun x hx => Or.inr hx⟩
+    rw [a2.2]; decide
+  · have hh : h' = dicSet hs sContentLength (utoa body.length) := by
+      simp only [h', hb0, ne_eq, not_false_eq_true, if_true]
+      rw [setHeader_of_value (utoa_ne_nil _), cap_cl]
+    obtain ⟨l1, l2, he, hl1, hl2⟩ := dicSet_split hs sContentLength (utoa body.length)
+    have hchunk : isChunked h' = false := by
+      unfold isChunked header
+      rw [cap_cl, hh, dicGet_dicSet_same]
+      have := utoa_ne_nil body.length
+      cases hu : utoa body.length with
+      | nil => exact absurd hu this
+      | cons a t => rfl
+    rw [hchunk, writeBody_plain blk hb]
+    have hmem : ∀ x ∈ h', x = (sContentLength, utoa body.length) ∨ x ∈ hs := by
+      intro x hx; rw [hh] at hx; exact mem_dicSet hx
+    refine ⟨?_, hmem⟩
+    have hlist : (sHostName, hostport) :: h' = ((sHostName, hostport) :: l1) ++ (sContentLength, utoa body.length) :: l2 := by
+      rw [hh, he]; rfl
+    rw [hlist]
+    have f1 := header_norm_found sContentLength cap_cl ((sHostName, hostport) :: l1) l2 sContentLength (utoa body.length)
+      (utoa_ne_nil _) cap_cl (fun x hx => ⟨(hwf x (hl2 x hx)).2.1.1, (hres x (hl2 x hx)).1⟩)
+    have f2 := header_norm_absent sTransferEncoding (by decide) (((sHostName, hostport) :: l1) ++ (sContentLength, utoa body.length) :: l2) (by
+      intro x hx
+      rcases List.mem_append.mp hx with h | h
+      · rcases List.mem_cons.mp h with h | h
+        · subst h; exact ⟨hhp, cap_host_ne.2⟩
+        · exact ⟨(hwf x (hl1 x h)).2.1.1, (hres x (hl1 x h)).2⟩
+      · rcases List.mem_cons.mp h with h | h
+        · subst h; exact ⟨utoa_ne_nil _, cap_cl_ne_te⟩
+        · exact ⟨(hwf x (hl2 x h)).2.1.1, (hres x (hl2 x h)).2⟩)
+    exact Framed.len body f1.1 f1.2 (by rw [f2.2]; decide)
+
+
+
+
+theorem dicGet_mem {d : Dic} {k v : Bytes} (h : dicGet d k = some v) : (k, v) ∈ d := by
+  induction d with
+  | nil => simp [dicGet] at h
+  | cons kv t ih =>
+    obtain ⟨k', v'⟩ := kv
+    unfold dicGet at h
+    by_cases h1 : k' = k
+    · simp only [h1, if_true, Option.some.injEq] at h
+      subst h1; subst h; exact List.mem_cons_self
+    · simp only [h1, if_false] at h
+      exact List.mem_cons_of_mem _ (ih h)
+
+theorem cap_te : capitalized sTransferEncoding = sTransferEncoding := by decide
+theorem wf_name_te : WFName sTransferEncoding := by
+  refine ⟨by decide, ?_⟩
+  decide
+theorem wf_value_chunked : WFValue sChunked := by
+  refine ⟨by decide, by decide, ?_, ?_⟩ <;> decide
+
+/-- the framing of a message whose body was `put()` (Content-Length always set, also "0") -/
+theorem put_framed (blk : Nat) (hs : Dic) (body : Bytes) (hb : 0 < blk) (hwf : WFHeaders hs) (hres : NoFraming hs) :
+    let h' := setHeader hs sContentLength (utoa body.length)
+    Framed blk (norm h') (writeBody (isChunked h') blk body) body ∧
+      (∀ x ∈ h', x = (sContentLength, utoa body.length) ∨ x ∈ hs) := by
+  intro h'
+  have hh : h' = dicSet hs sContentLength (utoa body.length) := by
+    simp only [h']; rw [setHeader_of_value (utoa_ne_nil _), cap_cl]
+  obtain ⟨l1, l2, he, hl1, hl2⟩ := dicSet_split hs sContentLength (utoa body.length)
+  have hchunk : isChunked h' = false := by
+    unfold isChunked header
+    rw [cap_cl, hh, dicGet_dicSet_same]
+    have := utoa_ne_nil body.length
+    cases hu : utoa body.length with
+    | nil => exact absurd hu this
+    | cons a t => rfl
+  rw [hchunk, writeBody_plain blk hb]
+  have hmem : ∀ x ∈ h', x = (sContentLength, utoa body.length) ∨ x ∈ hs := by
+    intro x hx; rw [hh] at hx; exact mem_dicSet hx
+  refine ⟨?_, hmem⟩
+  rw [hh, he]
+  have f1 := header_norm_found sContentLength cap_cl l1 l2 sContentLength (utoa body.length)
+    (utoa_ne_nil _) cap_cl (fun x hx => ⟨(hwf x (hl2 x hx)).2.1.1, (hres x (hl2 x hx)).1⟩)
+  have f2 := header_norm_absent sTransferEncoding cap_te (l1 ++ (sContentLength, utoa body.length) :: l2) (by
+    intro x hx
+    rcases List.mem_append.mp hx with h | h
+    · exact ⟨(hwf x (hl1 x h)).2.1.1, (hres x (hl1 x h)).2⟩
+    · rcases List.mem_cons.mp h with h | h
+      · subst h; exact ⟨utoa_ne_nil _, cap_cl_ne_te⟩
+      · exact ⟨(hwf x (hl2 x h)).2.1.1, (hres x (hl2 x h)).2⟩)
+  exact Framed.len body f1.1 f1.2 (by rw [f2.2]; decide)
+
+/-- the framing of a response streamed with `write(part)` under `Transfer-Encoding: chunked`, ended by the last chunk -/
+theorem stream_framed (blk : Nat) (hs : Dic) (parts : List Bytes) (hwf : WFHeaders hs) (hres : NoFraming hs) :
+    let h' := setHeader hs sTransferEncoding sChunked
+    Framed blk (norm h') ((parts.map (writeBody (isChunked h') blk)).flatten ++ lastChunk) parts.flatten ∧
+      (∀ x ∈ h', x = (sTransferEncoding, sChunked) ∨ x ∈ hs) := by
+  intro h'
+  have hh : h' = dicSet hs sTransferEncoding sChunked := by
+    simp only [h']; rw [setHeader_of_value (by decide), cap_te]
+  obtain ⟨l1, l2, he, hl1, hl2⟩ := dicSet_split hs sTransferEncoding sChunked
+  have hmem : ∀ x ∈ h', x = (sTransferEncoding, sChunked) ∨ x ∈ hs := by
+    intro x hx; rw [hh] at hx; exact mem_dicSet hx
+  have hchunk : isChunked h' = true := by
+    unfold isChunked header
+    rw [cap_cl, hh, dicGet_dicSet_other _ _ _ _ (by decide)]
+    cases hg : dicGet hs sContentLength with
+    | none => rfl
+    | some v => exact absurd cap_cl (hres _ (dicGet_mem hg)).1
+  rw [hchunk]
+  refine ⟨?_, hmem⟩
+  rw [hh, he]
+  have f1 := header_norm_found sTransferEncoding cap_te l1 l2 sTransferEncoding sChunked (by decide) cap_te
+    (fun x hx => ⟨(hwf x (hl2 x hx)).2.1.1, (hres x (hl2 x hx)).2⟩)
+  have f2 := header_norm_absent sContentLength cap_cl (l1 ++ (sTransferEncoding, sChunked) :: l2) (by
+    intro x hx
+    rcases List.mem_append.mp hx with h | h
+    · exact ⟨(hwf x (hl1 x h)).2.1.1, (hres x (hl1 x h)).1⟩
+    · rcases List.mem_cons.mp h with h | h
+      · subst h; exact ⟨by decide, by decide⟩
+      · exact ⟨(hwf x (hl2 x h)).2.1.1, (hres x (hl2 x h)).1⟩)
+  exact Framed.chunked parts f2.1 f1.2
+
+
 end AslProofs.HttpFrame
